@@ -110,3 +110,62 @@ pub fn perturb(r: &mut ChaCha20Rng, s: &Scalar) -> Scalar {
         },
     }
 }
+
+/// `(q - 1) / n` as little-endian limbs (n must divide q - 1)
+fn q_minus_1_over(n: u64) -> [u64; 4] {
+    let qm1: [u64; 4] = [0xffff_ffff_0000_0000, 0x53bd_a402_fffe_5bfe, 0x3339_d808_09a1_d805, 0x73ed_a753_299d_7d48];
+    let mut out = [0u64; 4];
+    let mut rem: u128 = 0;
+    for i in (0..4).rev() {
+        let cur = (rem << 64) | qm1[i] as u128;
+        out[i] = (cur / n as u128) as u64;
+        rem = cur % n as u128;
+    }
+    assert_eq!(rem, 0, "n does not divide q - 1");
+    out
+}
+
+/// primitive n-th roots of unity of the scalar field for n = 3, 4, 6, 8, 16 (q - 1 = 2^32 * 3 * ...): the weights under
+/// which power sums vanish — d^2 + (i d)^2 = 0, d^3 + (w d)^3 + (w^2 d)^3 ..., d^4 + (z8 d)^4 = 0.  A verifier that
+/// replaces "all differences are zero" by "a power sum of the differences is zero" (true over the reals) is exposed
+/// exactly by deviations in these ratios.
+pub fn roots_of_unity() -> Vec<(u64, Scalar)> {
+    use ff::{Field, PrimeField};
+    let g = Scalar::multiplicative_generator();
+    [3u64, 4, 6, 8, 16].iter().map(|&n| {
+        let z = g.pow_vartime(&q_minus_1_over(n));
+        debug_assert!(z.pow_vartime(&[n, 0, 0, 0]) == Scalar::one() && z != Scalar::one());
+        (n, z)
+    }).collect()
+}
+
+/// the weights a second deviation is given relative to the first: together, oppositely, and in the ratio of a root of unity
+pub fn deviation_weights() -> Vec<Scalar> {
+    let mut v = vec![Scalar::one(), -Scalar::one()];
+    v.extend(roots_of_unity().into_iter().map(|(_, z)| z));
+    v
+}
+
+/// Deterministic weight families a batched verification might use for its i-th equation ("distinct public coefficients"):
+/// index-based (i, i+1, i+2, 2i+1, (i+1)^2, n-i), powers of 2 and of 128, and powers of the challenge.  Two defective
+/// items i and j whose deviations are (w_j * D, -w_i * D) cancel in the batch with weights w.  Returns (name, w_i, w_j).
+pub fn pair_weights(i: usize, j: usize, n: usize, c: Option<&Scalar>) -> Vec<(&'static str, Scalar, Scalar)> {
+    use ff::Field;
+    let f = |x: u64| Scalar::from(x);
+    let (a, b) = (i as u64, j as u64);
+    let mut v = vec![
+        ("index+1", f(a + 1), f(b + 1)),
+        ("index+2", f(a + 2), f(b + 2)),
+        ("2*index+1", f(2 * a + 1), f(2 * b + 1)),
+        ("(index+1)^2", f((a + 1) * (a + 1)), f((b + 1) * (b + 1))),
+        ("n-index", f(n as u64 - a), f(n as u64 - b)),
+        ("2^index", f(2).pow_vartime(&[a, 0, 0, 0]), f(2).pow_vartime(&[b, 0, 0, 0])),
+        ("128^index", f(128).pow_vartime(&[a, 0, 0, 0]), f(128).pow_vartime(&[b, 0, 0, 0])),
+    ];
+    if a != 0 && b != 0 { v.push(("index", f(a), f(b))); }
+    if let Some(c) = c {
+        v.push(("challenge^index", c.pow_vartime(&[a, 0, 0, 0]), c.pow_vartime(&[b, 0, 0, 0])));
+        v.push(("challenge^(index+1)", c.pow_vartime(&[a + 1, 0, 0, 0]), c.pow_vartime(&[b + 1, 0, 0, 0])));
+    }
+    v
+}
